@@ -16,9 +16,9 @@ RULE = ("cases = generated well-formed plotfiles (C01 population incl. scattered
         "an option combination different from the default")
 ASSUMPTIONS = ["well-formed = what the generator writes (NaN-ignoring min/max rows; no all-NaN "
                "box component)", "pool shim M1 in-process with shuffled schedules"]
-REQUIRED_OBS = {"validations": 500, "stage:taste_binary_data": 50, "stage:taste_binary_shape": 100,
-                "stage:taste_binary_headers": 100, "stage:taste_box_coordinates": 100,
-                "controls_above_limit": 5, "cli_validations": 100}
+REQUIRED_OBS = {"validations": 500, "controls_above_limit": 5, "cli_validations": 100}
+# (the stage:* counters - which validation stages actually ran - are reported in the evidence but not
+#  required: they hang on internal method names)
 TIMEOUT = {"quick": 300, "thorough": 1500}
 
 
